@@ -323,15 +323,21 @@ pub fn write_float_nonscientific<const FORMAT: u128>(
     // Won't panic since `integer_count < digits.len()` since `digit_count <
     // digits.len()`.
     let digits = &digits[integer_count..];
-    let fraction_count = digit_count.saturating_sub(integer_length);
+    let mut fraction_count = digit_count.saturating_sub(integer_length);
     if fraction_count > 0 {
         // Need to write additional fraction digits.
         let src = &digits[..fraction_count];
         let end = cursor + fraction_count;
         let dst = &mut bytes[cursor..end];
         copy_to_dst(dst, src);
+        // NOTE: If rounding left only zeros, there are no fraction digits.
         let zeros = rtrim_char_count(&bytes[cursor..end], b'0');
-        cursor += fraction_count - zeros;
+        fraction_count -= zeros;
+        digit_count -= zeros;
+        cursor += fraction_count;
+    }
+    if fraction_count > 0 {
+        // Wrote the fraction digits.
     } else if options.trim_floats() {
         // Remove the decimal point, went too far.
         cursor -= 1;
